@@ -89,6 +89,23 @@ func (e *CEnv) lookupLocal(name string) (*Val, bool) {
 	} else {
 		return nil, false
 	}
+	// 0. phiN: the N-th phi of the loop header (for loops without a source-level variable)
+	if e.loop != nil && strings.HasPrefix(name, "phi") {
+		var n int
+		if _, err := fmt.Sscanf(name, "phi%d", &n); err == nil {
+			k := 0
+			for _, ins := range at.Instrs {
+				phi, ok := ins.(*ssa.Phi)
+				if !ok {
+					break
+				}
+				if k == n {
+					return e.ssaVal(phi), true
+				}
+				k++
+			}
+		}
+	}
 	// 1. phi at the loop header carrying that variable
 	if e.loop != nil {
 		for _, ins := range at.Instrs {
@@ -211,6 +228,8 @@ func (e *CEnv) ssaVal(v ssa.Value) *Val {
 		if s, ok := e.subst[v]; ok {
 			return s
 		}
+	}
+	if _, defined := fg.vals[v]; e.subst != nil || !defined {
 		if ins, ok := v.(ssa.Instruction); ok && e.loop != nil && ins.Block() == e.loop.header {
 			switch x := v.(type) {
 			case *ssa.BinOp:
@@ -337,7 +356,11 @@ func (fg *FnGen) evalIdent(name string, env *CEnv) *Val {
 			return v
 		}
 		if comp, ok := fg.ghosts[name]; ok && env.calleePkg == "" {
-			return &Val{T: tInt, L: []Term{fg.get(env.st, comp, fg.compSorts[comp])}}
+			var gt types.Type = tInt
+			if fg.compSorts[comp] == SBool {
+				gt = tBool
+			}
+			return &Val{T: gt, L: []Term{fg.get(env.st, comp, fg.compSorts[comp])}}
 		}
 	}
 	if env.calleePkg == "" {
@@ -712,6 +735,9 @@ func (fg *FnGen) evalCall(x *CCall, env *CEnv) *Val {
 		mt := types.Unalias(m.T).Underlying().(*types.Map)
 		key := fg.mapKey(fg.evalC(x.Args[1], env))
 		return &Val{T: tBool, L: []Term{fg.mapHas(env.st, m, mt, key)}}
+	case "arr":
+		v := fg.evalC(x.Args[0], env)
+		return &Val{T: tInt, L: []Term{v.L[0]}}
 	case "fresh":
 		v := fg.evalC(x.Args[0], env)
 		return &Val{T: tBool, L: []Term{Ge(v.L[0], fg.get(env.old, "$alloc", SInt))}}
